@@ -113,7 +113,8 @@ CHECKS = {
         "for all real contents; all rotate_from_* forms equal rotate() with the equivalent rotation; setters pad/end-slice the other path; "
         "rejected calls raise the input error and leave the state term-identical.",
         note="Real arithmetic, unit quaternions, rotations compared up to quaternion sign; SciPy's from_rotvec/euler/matrix/mrp conversions are "
-        "uninterpreted (compiled code); path lengths beyond the bound are outside the claim.",
+        "uninterpreted (compiled code); path lengths beyond the bound are outside the claim; anchors incl. the object's own position view "
+        "(aliasing behind dtype tests is seen by the concrete trace only).",
         design="3/C09",
     ),
     "C10": dict(
@@ -125,7 +126,9 @@ CHECKS = {
         "frame at every new path index (compared with the old index it derives from), for all real poses and arguments; operating on a "
         "child alone leaves all other objects term-identical. Anchors include the .position array of the rotated collection itself / of its first "
         "child (aliasing). Every scenario is also run once with committed pseudo-random doubles through the unpatched library (model validation).",
-        note="Real arithmetic, unit quaternions, rotations up to quaternion sign; N<=2 (quick) / 3 (thorough); start values and input lengths from stated lists.",
+        note="Real arithmetic, unit quaternions, rotations up to quaternion sign; N<=2 (quick) / 3 (thorough); start values and input lengths from stated lists; one operation per case, plus two-step histories "
+        "(child.position = coll.position, then an operation on the collection) and anchors that are views of the operated paths - the aliasing these "
+        "exercise sits behind dtype tests and is seen by the concrete model-validation trace, not by the solver.",
         design="3/C10",
     ),
     "C11": dict(
